@@ -873,9 +873,10 @@ private:
         while (old_size < new_size && !this->my_size.compare_exchange_weak(old_size, new_size))
         {}
 
-        if (new_size > old_size) {
-            return internal_grow(old_size, new_size, args...);
-        }
+        // Even if this call appends elements itself, it has to wait below: the elements under old_size
+        // may belong to a range that another thread has claimed but not allocated yet.
+        const bool grown = new_size > old_size;
+        iterator appended = grown ? internal_grow(old_size, new_size, args...) : iterator(*this, 0);
 
         size_type end_segment = this->segment_index_of(new_size - 1);
 
@@ -899,7 +900,7 @@ private:
         size_type cap = capacity();
         __TBB_ASSERT( cap >= new_size, nullptr);
     #endif
-        return iterator(*this, size());
+        return grown ? appended : iterator(*this, size());
     }
 
     template <typename... Args>
